@@ -662,7 +662,13 @@ func (state *BuildState) forwardResults() {
 		} else {
 			result = <-state.progress.internalResults
 		}
-		if target := result.target; target != nil {
+		target := result.target
+		if target == nil && !result.Status.IsActive() {
+			// Errors are logged by label only; look the target up so a failed target doesn't stay
+			// active forever, which would stop the cycle check from ever being scheduled again.
+			target = state.Graph.Target(result.Label)
+		}
+		if target != nil {
 			if result.Status.IsActive() {
 				activeTargets[target] = struct{}{}
 			} else {
